@@ -292,3 +292,61 @@ Theorem C03_rdb_file_is_lpm_refuted :
     lpm (nets_of f m) (fam a) a 128 = Some ((0, 1), 1).
 Proof. exact rdb_file_is_lpm_refuted. Qed.
 Print Assumptions C03_rdb_file_is_lpm_refuted.
+
+(* ==================================================================================
+   C03 on the compiled RocksDB database of a data file, CLOSED over the codec
+   (Model/Accum.v, Proofs/AccumLink.v): the line codec is C09's (parse_line, convert with
+   NoRnetOutput), the accumulator is the concrete one of rdb initCodec - SubnetRanger.MarshalMap:
+   for every map with subnet lines the range-point records of Rearrange - and the features record
+   is the one of the key layout.  [rp_codec] is PROVED of it for files without '!' lines (subnets
+   given as % lines, as the compiler reads them; a preprocessed file carries its own range points).
+   [file_nets rs m]: the subnets the % lines declare for map m (address as a number, length in
+   128-bit terms, location id).  sort.Slice stays abstract.
+   ================================================================================== *)
+From DnsV Require Model.Text Model.Preproc Proofs.FileLevel.
+From DnsV Require Import Model.Accum Proofs.AccumLink.
+
+Theorem C03_rp_codec_rdb : forall sort o serial v2 f, sort_spec sort ->
+  Proofs.FileLevel.wf_file o serial f = true -> no_rp_lines o serial f = true ->
+  (forall m, wf_subnets (file_nets (Proofs.FileLevel.parsed o serial f) m)) ->
+  rp_codec bytes (Proofs.FileLevel.conv_line o serial true v2) (accum_rdb sort o serial) [Model.Preproc.feature_kv v2] sort
+           (file_nets (Proofs.FileLevel.parsed o serial f)) (ranger_ids (Proofs.FileLevel.parsed o serial f)) f.
+Proof. exact rp_codec_rdb. Qed.
+Print Assumptions C03_rp_codec_rdb.
+
+(* every RocksDB compilation (builder or batches, any setting, any schedule; v1 or v2 keys) of a
+   well-formed file holds exactly the range points of Rearrange ... *)
+Theorem C03_rdb_db_from_compile_closed : forall sort, sort_spec sort -> forall o serial v2 f,
+  Proofs.FileLevel.wf_file o serial f = true -> no_rp_lines o serial f = true ->
+  (forall m, wf_subnets (file_nets (Proofs.FileLevel.parsed o serial f) m)) ->
+  kvs_ok (flat_map (recs_of bytes (Proofs.FileLevel.conv_line o serial false v2)) f) ->
+  forall (db : store) dbl,
+  rdb_compilation bytes (Proofs.FileLevel.conv_line o serial true v2) (accum_rdb sort o serial) [Model.Preproc.feature_kv v2] f db ->
+  lists_store dbl db -> rdb_holds_points sort (file_nets (Proofs.FileLevel.parsed o serial f)) dbl.
+Proof. exact rdb_compiled_holds_points. Qed.
+Print Assumptions C03_rdb_db_from_compile_closed.
+
+(* ... hence GetLocationByMap on it is longest-prefix match over the subnets the file declares *)
+Theorem C03_rdb_compiled_is_lpm_closed : forall sort, sort_spec sort -> forall o serial v2 f,
+  Proofs.FileLevel.wf_file o serial f = true -> no_rp_lines o serial f = true ->
+  (forall m, wf_subnets (file_nets (Proofs.FileLevel.parsed o serial f) m)) ->
+  kvs_ok (flat_map (recs_of bytes (Proofs.FileLevel.conv_line o serial false v2)) f) ->
+  forall (db : store) dbl,
+  rdb_compilation bytes (Proofs.FileLevel.conv_line o serial true v2) (accum_rdb sort o serial) [Model.Preproc.feature_kv v2] f db ->
+  lists_store dbl db ->
+  forall m a bits ones plen, a < two128 -> client_plen a bits ones plen ->
+  rdb_get_location dbl m (mkClient (Some a) bits ones) =
+  Ok (lpm_result (lpm (file_nets (Proofs.FileLevel.parsed o serial f) m) (fam (clean_mask a plen)) (clean_mask a plen) plen)).
+Proof. exact rdb_compiled_is_lpm_closed. Qed.
+Print Assumptions C03_rdb_compiled_is_lpm_closed.
+
+(* such compilations exist and can be listed *)
+Theorem C03_rdb_compiled_exists_closed : forall (sort : list point -> list point) o serial v2 f,
+  Proofs.FileLevel.wf_file o serial f = true ->
+  kvs_ok (flat_map (recs_of bytes (Proofs.FileLevel.conv_line o serial false v2)) f) ->
+  forall ksort, sort_ok ksort ->
+  exists (db : store) dbl,
+    rdb_compilation bytes (Proofs.FileLevel.conv_line o serial true v2) (accum_rdb sort o serial) [Model.Preproc.feature_kv v2] f db /\
+    lists_store dbl db.
+Proof. exact rdb_compiled_exists_closed. Qed.
+Print Assumptions C03_rdb_compiled_exists_closed.
